@@ -376,7 +376,7 @@ func (c13) Run(plan interface{}, schedSeed uint64, replay []simrt.Choice, lenien
 		}
 	}
 	if out.Races > 0 {
-		v.Probe("race-reports(diagnostic)")
+		v.Violate("race", "race", "%s: the race detector reported %d data race(s) on this schedule", p.Kind, out.Races)
 	}
 	v.Probe("kind:" + p.Kind)
 	if p.Kind != "cancel" && p.Kind != "close-send" && c13Pending(p) > p.QueueSize {
